@@ -528,6 +528,27 @@ class Ctx:
         if isinstance(clause, SymBool): clause = clause.t
         if clause is True or (z3.is_bool(clause) and z3.is_true(clause)): return 'unsat', None
         if clause is False: clause = z3.BoolVal(False)
+        # opt-in (VERIF_PROVE_FRESH_MS > 0): first try a *fresh* one-shot solver on pc ∧ ¬clause. The long-lived
+        # path solver carries the lemmas of every feasibility query of the path and was measured 100x slower
+        # (20 s vs 0.2 s) on nonlinear VCs such as (Σ n_i/F·V_i)·F = Σ V_i·n_i. Same formula, same verdicts.
+        fresh_ms = int(os.environ.get('VERIF_PROVE_FRESH_MS', '0') or 0)
+        if fresh_ms > 0:
+            t0 = time.time()
+            try:
+                s = z3.Solver()
+                s.set('timeout', min(fresh_ms, timeout_ms))
+                s.add(self.solver.assertions())
+                s.add(z3.Not(clause))
+                r = s.check()
+                self.stats['solver_calls'] = self.stats.get('solver_calls', 0) + 1
+                if r == z3.unsat:
+                    return 'unsat', None
+                if r == z3.sat:
+                    return 'sat', s.model()
+            except z3.Z3Exception:
+                pass
+            finally:
+                self.solver_time += time.time() - t0
         self.solver.set('timeout', timeout_ms)
         try:
             r = self._check(z3.Not(clause))
